@@ -49,6 +49,8 @@ PrintParseIsId    == stage \in {"parsed", "done"} => parsed = ptree
 SpacingSuffices   == stage # "picked" => \A pr \in GluedPairs(ptree) : ~Fuses(pr[1], pr[2])
 SameValue         == stage = "done" => Value(Strip(parsed)) = Value(Strip(tree))
 
-Out == [tree |-> ptree, text |-> text, v |-> result.v, env |-> [k \in 1..Len(EnvOrder) |-> result.env[EnvOrder[k]]]]
+\* wt: g++ accepts the text and its value is defined by the language (no unsequenced side effects);
+\* v may still be Undef (outside the small-int semantics of Eval): then only g++ original-vs-printed is compared
+Out == [tree |-> ptree, text |-> text, v |-> result.v, wt |-> (~Racy(tree) /\ WellTyped(tree, DOMAIN EnvInit)), env |-> [k \in 1..Len(EnvOrder) |-> result.env[EnvOrder[k]]]]
 Emit == stage # "done" \/ PrintT(<<"B", ToJson(Out)>>)
 =============================================================================
